@@ -1006,6 +1006,14 @@ class _SSeq:
                 return i
         return -1
 
+    def rfind(self, sub, start=0):
+        c = self._coerce(sub)
+        n, k = len(self.items), len(c)
+        for i in range(n - k, start - 1, -1):
+            if self._new(self.items[i:i + k]) == sub:
+                return i
+        return -1
+
     def index(self, sub, start=0):
         r = self.find(sub, start)
         if r < 0:
